@@ -16,25 +16,6 @@ theorem statusOff_geom {a b : FsState} (h : SameGeom a b) : statusOff b = status
 theorem StatusRec.geom {a b : FsState} (h : SameGeom a b) {off bs} (hs : StatusRec b off bs) : StatusRec a off bs := by
   unfold StatusRec at *; rw [statusOff_geom h] at hs; exact hs
 
-/-- exact outcome of one device write -/
-theorem stepOp_write_exact (bs : List Nat) (d : Dev) {r d1} (hr : stepOp (.write bs) d = (r, d1)) :
-    d1.fs = d.fs ∧
-    ((∃ e, r = .error e ∧ d1.log = d.log) ∨
-     (r = .ok (min bs.length (d.img.size - d.pos)) ∧
-      d1.log = .write d.pos (bs.take (min bs.length (d.img.size - d.pos))) :: d.log ∧
-      d1.pos = d.pos + min bs.length (d.img.size - d.pos))) := by
-  have hc : (d.count .w).fs = d.fs ∧ (d.count .w).log = d.log ∧ (d.count .w).pos = d.pos ∧ (d.count .w).img = d.img := by
-    unfold Dev.count; simp
-  simp only [stepOp, devCall, devCallCore] at hr
-  split at hr
-  · cases hr
-    exact ⟨hc.1, Or.inl ⟨_, rfl, hc.2.1⟩⟩
-  · cases hr
-    refine ⟨hc.1, Or.inr ⟨?_, ?_, ?_⟩⟩
-    · simp only [hc.2.2.1, hc.2.2.2]
-    · simp only [hc.2.1, hc.2.2.1, hc.2.2.2]
-    · simp only [hc.2.2.1, hc.2.2.2]
-
 /-- every outcome of `set_dirty_flag`: geometry kept, records inside the status byte; success ⇒ flags current -/
 theorem setDirtyFlag_all (b : Bool) (d : Dev) {r d'} (hr : run (setDirtyFlag b) d = (r, d')) :
     SameGeom d.fs d'.fs ∧ LogAll (StatusRec d.fs) d d' := by
@@ -56,36 +37,42 @@ theorem setDirtyFlag_all (b : Bool) (d : Dev) {r d'} (hr : run (setDirtyFlag b) 
 
 /-! ### `write_all` of a non-empty buffer lying inside the device, on the inner stream of a slice -/
 
-/-- the status record `FsIoAdapter::write` adds after the first successful write since mount (oldest first) -/
+/-- the status record `FsIoAdapter::write` puts out BEFORE its first write on a volume not yet marked dirty -/
 def statusExtra (via : Bool) (fs : FsState) : List LogItem :=
-  if via = true ∧ ¬ (((fs.bpbDirty || true) == fs.curDirty && fs.bpbIoErr == fs.curIoErr) = true) then [statusWrite fs true]
-  else []
+  if via = true ∧ fs.curDirty = false then [statusWrite fs true] else []
 
 /-- the mounted state after a successful write through the inner stream -/
 def fsAfter (via : Bool) (fs : FsState) : FsState :=
-  if via then { fs with curDirty := fs.bpbDirty || true, curIoErr := fs.bpbIoErr } else fs
+  if via = true ∧ fs.curDirty = false then { fs with curDirty := fs.bpbDirty || true, curIoErr := fs.bpbIoErr } else fs
 
 theorem fsAfter_geom (via : Bool) (fs : FsState) : SameGeom fs (fsAfter via fs) := by
   unfold fsAfter; split <;> rfl
 
+theorem fsAfter_dirty (fs : FsState) : (fsAfter true fs).curDirty = true := by
+  unfold fsAfter
+  cases h : fs.curDirty <;> simp [h]
+
 theorem statusExtra_after (via : Bool) (fs : FsState) : statusExtra via (fsAfter via fs) = [] := by
-  unfold statusExtra fsAfter
-  cases via <;> simp
+  cases via with
+  | false => simp [statusExtra]
+  | true => unfold statusExtra; rw [fsAfter_dirty]; simp
 
 theorem fsAfter_idem (via : Bool) (fs : FsState) : fsAfter via (fsAfter via fs) = fsAfter via fs := by
-  unfold fsAfter; cases via <;> simp
+  cases via with
+  | false => simp [fsAfter]
+  | true =>
+    have := fsAfter_dirty fs
+    generalize fsAfter true fs = g at *
+    unfold fsAfter; rw [this]; simp
 
-theorem statusExtra_cur {fs : FsState} (h : StatusCurrent fs true) : statusExtra true fs = [] := by
-  have h' := (statusCurrent_iff fs true).mpr h
-  unfold statusExtra
-  rw [if_neg]
-  exact fun hc => hc.2 h'
+theorem statusExtra_dirty {fs : FsState} (h : fs.curDirty = true) (via : Bool) : statusExtra via fs = [] := by
+  unfold statusExtra; rw [h]; simp
 
-theorem statusExtra_ncur {fs : FsState} (h : ¬ StatusCurrent fs true) : statusExtra true fs = [statusWrite fs true] := by
-  have h' : ¬ (((fs.bpbDirty || true) == fs.curDirty && fs.bpbIoErr == fs.curIoErr) = true) :=
-    fun hc => h ((statusCurrent_iff fs true).mp hc)
-  unfold statusExtra
-  rw [if_pos ⟨rfl, h'⟩]
+theorem statusExtra_clean {fs : FsState} (h : fs.curDirty = false) : statusExtra true fs = [statusWrite fs true] := by
+  unfold statusExtra; rw [h]; simp
+
+theorem fsAfter_of_dirty {fs : FsState} (h : fs.curDirty = true) (via : Bool) : fsAfter via fs = fs := by
+  unfold fsAfter; rw [h]; simp
 
 theorem run_devWrite_full (bs : List Nat) (d : Dev) (hin : d.pos + bs.length ≤ d.img.size) {r d1}
     (hr : run (Prog.write bs) d = (r, d1)) :
@@ -97,13 +84,56 @@ theorem run_devWrite_full (bs : List Nat) (d : Dev) (hin : d.pos + bs.length ≤
   rw [hm, List.take_length] at h
   exact h
 
+/-- every outcome of `markDirtyBeforeWrite`: geometry kept, records inside the status byte -/
+theorem markDirtyBeforeWrite_all (d : Dev) {r d'} (hr : run markDirtyBeforeWrite d = (r, d')) :
+    SameGeom d.fs d'.fs ∧ LogAll (StatusRec d.fs) d d' := by
+  cases hcd : d.fs.curDirty with
+  | true =>
+    obtain ⟨_, hd⟩ := (markDirtyBeforeWrite_spec d hr).1 hcd
+    subst hd
+    exact ⟨rfl, LogAll.refl _ _⟩
+  | false =>
+    refine ⟨?_, LogAll.of_within ((markDirtyBeforeWrite_spec d hr).2 hcd).1 (fun off bs h1 h2 => ⟨h1, h2⟩)⟩
+    unfold markDirtyBeforeWrite at hr
+    rcases run_bind_cases hr with ⟨fs, d0, h0, hr⟩ | ⟨e, h0, _⟩
+    rotate_left
+    · simp only [Prog.getFs, run, stepOp] at h0; cases h0
+    simp only [Prog.getFs, run, stepOp] at h0
+    cases h0
+    rw [if_neg (by rw [hcd]; decide)] at hr
+    rcases run_bind_cases hr with ⟨pos, d1, h1, hr⟩ | ⟨e, h1, _⟩
+    · have s1 := run_seekCur0_spec d h1
+      rcases run_bind_cases hr with ⟨u, d2, h2, hr⟩ | ⟨e, h2, _⟩
+      · have ha := (setDirtyFlag_all true d1 h2).1
+        rcases run_bind_cases hr with ⟨_, d3, h3, hr⟩ | ⟨e, h3, _⟩
+        · have hr' : run (Prog.pure ()) d3 = (r, d') := hr
+          simp only [run] at hr'; cases hr'
+          rw [← s1.1, (run_seekStart_spec _ d2 h3).1]; exact ha
+        · rw [← s1.1, (run_seekStart_spec _ d2 h3).1]; exact ha
+      · rw [← s1.1]; exact (setDirtyFlag_all true d1 h2).1
+    · rw [(run_seekCur0_spec d h1).1]; rfl
+
+/-- success of `markDirtyBeforeWrite`: the state `fsAfter`, the log `statusExtra`, the position kept -/
+theorem markDirtyBeforeWrite_ok (d : Dev) {u : Unit} {d'} (hr : run markDirtyBeforeWrite d = (.ok u, d')) :
+    d'.fs = fsAfter true d.fs ∧ d'.log = statusExtra true d.fs ++ d.log ∧ d'.pos = d.pos ∧ d'.img.size = d.img.size := by
+  have hsz := run_img_size _ _ _ _ hr
+  cases hcd : d.fs.curDirty with
+  | true =>
+    obtain ⟨_, hd⟩ := (markDirtyBeforeWrite_spec d hr).1 hcd
+    subst hd
+    exact ⟨(fsAfter_of_dirty hcd _).symm, by rw [statusExtra_dirty hcd]; rfl, rfl, rfl⟩
+  | false =>
+    obtain ⟨h1, h2, h3⟩ := ((markDirtyBeforeWrite_spec d hr).2 hcd).2 _ rfl
+    refine ⟨?_, by rw [h2, statusExtra_clean hcd]; rfl, h3, hsz⟩
+    rw [h1]; unfold fsAfter; rw [hcd]; simp
+
 /-- one write through the inner stream -/
 theorem inner_write_full (s : DiskSlice) (bs : List Nat) (hne : bs ≠ []) (d : Dev)
     (hin : d.pos + bs.length ≤ d.img.size) {r d'} (hr : run (s.inner.write () bs) d = (r, d')) :
     SameGeom d.fs d'.fs ∧
     LogAll (fun off b => (off = d.pos ∧ b = bs) ∨ StatusRec d.fs off b) d d' ∧
     (∀ v, r = .ok v → v.1 = bs.length ∧ d'.fs = fsAfter s.viaFs d.fs ∧
-      d'.log = (statusExtra s.viaFs d.fs) ++ .write d.pos bs :: d.log) := by
+      d'.log = .write d.pos bs :: (statusExtra s.viaFs d.fs ++ d.log)) := by
   have hlen : bs.length > 0 := by
     cases bs with
     | nil => exact absurd rfl hne
@@ -127,33 +157,29 @@ theorem inner_write_full (s : DiskSlice) (bs : List Nat) (hne : bs ≠ []) (d : 
       · exact ⟨by rw [hfs]; rfl, LogAll.of_log_eq hlog, fun v hv' => by rw [he] at hv'; cases hv'⟩
       · cases hm
   | true =>
-    simp only [hv, if_true, adapterStrm] at hr
-    rcases run_bind_cases hr with ⟨m, d1, h1, h2⟩ | ⟨e, h1, he⟩
-    · have hw := run_devWrite_full bs d hin h1
-      rcases hw with ⟨hfs, ⟨e, he, _⟩ | ⟨hm, hlog, _⟩⟩
-      · cases he
-      · cases hm
-        have hdata : LogAll (fun off b => (off = d.pos ∧ b = bs) ∨ StatusRec d.fs off b) d d1 :=
-          LogAll.cons hlog (Or.inl ⟨rfl, rfl⟩)
-        rw [if_pos hlen] at h2
-        rcases run_bind_cases h2 with ⟨u, d2, h3, h4⟩ | ⟨e, h3, he⟩
-        · have h4' : run (Prog.pure (bs.length, ())) d2 = (r, d') := h4
-          simp only [run] at h4'; cases h4'
-          have ha := setDirtyFlag_all true d1 h3
-          have hsp := setDirtyFlag_spec true d1 h3
-          refine ⟨by rw [← hfs]; exact ha.1, hdata.trans (ha.2.mono (fun off b h => Or.inr (by rw [← hfs]; exact h))), ?_⟩
+    simp only [hv, if_true] at hr
+    rw [adapterStrm_write_unfold, if_pos hlen] at hr
+    rcases run_bind_cases hr with ⟨u, d1, h1, h2⟩ | ⟨e, h1, he⟩
+    · have ha := markDirtyBeforeWrite_all d h1
+      obtain ⟨hfs1, hlog1, hpos1, hsz1⟩ := markDirtyBeforeWrite_ok d h1
+      have hst : LogAll (fun off b => (off = d.pos ∧ b = bs) ∨ StatusRec d.fs off b) d d1 :=
+        ha.2.mono (fun off b h => Or.inr h)
+      rcases run_bind_cases h2 with ⟨m, d2, h3, h4⟩ | ⟨e, h3, he⟩
+      · have h4' : run (Prog.pure (m, ())) d2 = (r, d') := h4
+        simp only [run] at h4'; cases h4'
+        have hw := run_devWrite_full bs d1 (by rw [hpos1, hsz1]; exact hin) h3
+        rcases hw with ⟨hfs, ⟨e, he, _⟩ | ⟨hm, hlog, _⟩⟩
+        · cases he
+        · cases hm
+          refine ⟨by rw [hfs]; exact ha.1, hst.trans (LogAll.cons hlog (Or.inl ⟨hpos1, rfl⟩)), ?_⟩
           intro v hv'; cases hv'
-          refine ⟨rfl, by rw [hsp.1, hfs]; simp [fsAfter], ?_⟩
-          by_cases hc : StatusCurrent d1.fs true
-          · rw [hsp.2.1 hc, hlog, ← hfs, statusExtra_cur hc]; rfl
-          · rw [hsp.2.2 hc, hlog, ← hfs, statusExtra_ncur hc]; rfl
-        · have ha := setDirtyFlag_all true d1 h3
-          refine ⟨by rw [← hfs]; exact ha.1, hdata.trans (ha.2.mono (fun off b h => Or.inr (by rw [← hfs]; exact h))),
-            fun v hv' => by rw [he] at hv'; cases hv'⟩
-    · have hw := run_devWrite_full bs d hin h1
-      rcases hw with ⟨hfs, ⟨e', _, hlog⟩ | ⟨hm, _, _⟩⟩
-      · exact ⟨by rw [hfs]; rfl, LogAll.of_log_eq hlog, fun v hv' => by rw [he] at hv'; cases hv'⟩
-      · cases hm
+          exact ⟨rfl, by rw [hfs, hfs1], by rw [hlog, hlog1, hpos1]⟩
+      · have hw := run_devWrite_full bs d1 (by rw [hpos1, hsz1]; exact hin) h3
+        rcases hw with ⟨hfs, ⟨e', _, hlog⟩ | ⟨hm, _, _⟩⟩
+        · exact ⟨by rw [hfs]; exact ha.1, hst.trans (LogAll.of_log_eq hlog), fun v hv' => by rw [he] at hv'; cases hv'⟩
+        · cases hm
+    · have ha := markDirtyBeforeWrite_all d h1
+      exact ⟨ha.1, ha.2.mono (fun off b h => Or.inr h), fun v hv' => by rw [he] at hv'; cases hv'⟩
 
 
 /-- `write_all` of a non-empty buffer lying inside the device on the inner stream: ONE device write -/
@@ -161,7 +187,7 @@ theorem inner_writeAll_full (s : DiskSlice) (bs : List Nat) (hne : bs ≠ []) (d
     (hin : d.pos + bs.length ≤ d.img.size) {r d'} (hr : run (writeAll s.inner () bs) d = (r, d')) :
     SameGeom d.fs d'.fs ∧
     LogAll (fun off b => (off = d.pos ∧ b = bs) ∨ StatusRec d.fs off b) d d' ∧
-    (∀ v, r = .ok v → d'.fs = fsAfter s.viaFs d.fs ∧ d'.log = (statusExtra s.viaFs d.fs) ++ .write d.pos bs :: d.log) := by
+    (∀ v, r = .ok v → d'.fs = fsAfter s.viaFs d.fs ∧ d'.log = .write d.pos bs :: (statusExtra s.viaFs d.fs ++ d.log)) := by
   have hlen : bs.length ≠ 0 := by
     cases bs with
     | nil => exact absurd rfl hne
@@ -311,13 +337,13 @@ theorem writeMirrors_ok_quiet (s : DiskSlice) (off : Nat) (bs : List Nat) (hne :
     · cases he
 
 /-- `writeMirrors`, success: `bs` at each mirror offset, in order; the one status record `FsIoAdapter` may owe
-    follows the first of them -/
+    PRECEDES the first of them (fix f695ddf) -/
 theorem writeMirrors_ok (s : DiskSlice) (off : Nat) (bs : List Nat) (hne : bs ≠ []) (sz : Nat)
     (k i : Nat) (d : Dev) (u : Unit) (d' : Dev) (hsz : d.img.size = sz)
     (hin : ∀ j, j < k + 1 → off + (i + j) * s.size + bs.length ≤ sz)
     (hr : run (s.writeMirrors off bs (k + 1) i) d = (.ok u, d')) :
     d'.fs = fsAfter s.viaFs d.fs ∧
-    d'.log = mirrorLog off s.size bs k (i + 1) ++ (statusExtra s.viaFs d.fs ++ .write (off + i * s.size) bs :: d.log) := by
+    d'.log = mirrorLog off s.size bs k (i + 1) ++ (.write (off + i * s.size) bs :: (statusExtra s.viaFs d.fs ++ d.log)) := by
   unfold DiskSlice.writeMirrors at hr
   rcases run_bind_cases hr with ⟨_, d1, h1, h2⟩ | ⟨e, _, he⟩
   · have hs := run_inner_seek s _ d h1
